@@ -1645,7 +1645,10 @@ class Interp:
             nm = r.name
             if nm in EXTERNAL_TYPEINFO_BASES:
                 b = EXTERNAL_TYPEINFO_BASES[nm]
-                ti = self.addr_of_global(b) if b else 0
+                if not b: ti = 0
+                else:
+                    try: ti = self.addr_of_global(b)
+                    except Unsupported: ti = self.std_typeinfo(b)     # base class type info that the module never mentions
                 continue
             if r.kind == 'extern':
                 break
